@@ -19,7 +19,7 @@ PROP = "C16"
 LEVEL = "proof"
 ASSUMPTIONS = [
     "ICT node failures do not affect communication in the implementation (is_connected walks in-service ICT lines only); the property is stated over lines and so is the model",
-    "the timer rule of the automatic loop is a theorem on the model (C16.unreachable_costs_manual_time / reachable_costs_nothing); the model of the automatic loops is compared state by state with the real controllers in the C05 / C06 / C14 checks; sensors and intelligent switches that fail by themselves inside the loop are not modelled (timing oracle of this check only)",
+    "the timer rule of the automatic loop is a theorem on the model (C16.unreachable_costs_manual_time / reachable_costs_nothing); the model of the automatic loops is compared state by state with the real controllers in the C05 / C06 / C14 checks; sensors and intelligent switches that fail by themselves inside the loop are modelled by stepD and compared in the C05 / C06 checks",
 ]
 F = Fraction
 
@@ -51,10 +51,59 @@ def uf(n, es):
     return [[find(i) == find(j) for j in range(n)] for i in range(n)]
 
 
+def repair_case(case):
+    """ICT-based control whose main controller is out of service (hardware failure under repair) for the whole run; one power fault,
+    in the feeder or inside the microgrid.  Compared state by state with the model (every network on its manual loop: `ctl step`);
+    oracle on the real objects: a breaker tripped by the fault does not reclose before the manual sectioning time has passed."""
+    from . import ctl
+    v, ops, impl, info = ctl.run_scenario(case)
+    viols = []
+    T = F(case["spec"]["ctrl"]["T"]); dt = F(case["dt"])
+    k0 = case["k0"]
+    fail = next((r for r in info if r["phase"] == "fail" and r["k"] == k0), None)
+    sig = []
+    first = next((r for r in info if r["phase"] == "step" and r["k"] == k0), None)
+    if fail is not None and fail["was_connected"] and first is not None and fail["line"] in first["failed"]:      # still there at the first control pass
+        for name, opened in fail["cb_open"].items():
+            if not opened:
+                continue
+            back = next((r["k"] for r in info if r["phase"] == "step" and r["k"] >= k0 and not r["cb_open"][name]), None)
+            sig.append((name.startswith("micro"), back is not None))
+            if back is not None and (back - k0 + 1) * dt < T:       # open from the start of increment k0 to the end of increment `back`
+                viols.append(("timing.repair-auto", f"main controller under repair, fault on {fail['line']} in increment {k0}: the breaker of {name} is closed again in increment {back}, "
+                              f"after {(back - k0 + 1) * dt} h, before the manual sectioning time of {T} h has passed (sectioned automatically by a controller that is out of service)"))
+    return dict(ops=ops, impl=impl, viols=viols[:3], nontrivial=("repair", tuple(sorted(sig)), fail["line"][:2] if fail else None), tag="repair")
+
+
+def gen_repair(rng, n):
+    from . import ctl
+    cases = []
+    for j in range(n):
+        c = ctl.gen_scenario(rng, max_lines=4, ctrl="main", nfaults=(1, 1))
+        while not c["spec"].get("mg"):
+            c = ctl.gen_scenario(rng, max_lines=4, ctrl="main", nfaults=(1, 1))
+        c["spec"]["mg"]["n"] = rng.choice([1, 2, 3]); c["spec"]["mg"]["discon"] = True
+        c["spec"]["mg"]["mode"] = rng.choice(["full", "limited", "survival"])
+        if F(c["spec"]["ctrl"]["T"]) < 2 * F(c["dt"]):
+            c["spec"]["ctrl"]["T"] = str(rng.choice([2, 3]) * F(c["dt"]))
+        ps = net.build(c["spec"])
+        mg_lines = [l.name for l in ps.lines if l.name.startswith("ML")]
+        d_lines = [l.name for l in ps.lines if l.name.startswith("F0")]
+        k0 = rng.randint(2, 4)
+        ln = rng.choice(mg_lines if j % 3 != 2 else d_lines)
+        c["faults"] = {"1": [["C1", "200"]], str(k0): [[ln, str(F(c["spec"]["ctrl"]["T"]) + rng.choice([2, 3, 5]) * F(c["dt"]))]]}
+        c["k0"] = k0
+        c["kind"] = "repair"
+        cases.append(c)
+    return cases
+
+
 def handler(case):
     if case["kind"] == "timing":
         from . import c16_timing
         return c16_timing.timing_case(case)
+    if case["kind"] == "repair":
+        return repair_case(case)
     import relsad.network.components  # noqa: F401 (import order: avoids the package's circular import)
     from relsad.topology.ICT.dfs import is_connected
     n, edges, failed = case["n"], case["edges"], set(case["failed"])
@@ -105,14 +154,16 @@ def run(res):
     rng = random.Random(res.seed * 7027 + 53)
     n, ex = (60, 4) if res.tier == "quick" else (1500, 5)
     res.rule = (f"communication: all graphs on <= {ex} ICT nodes x subsets of failed lines (thinned at the largest size), random meshed graphs of 3-9 nodes with parallel lines; "
-                "every ordered node pair queried. timing: see c16_timing. non-trivial = distinct (nodes, lines, failed lines, number of communication islands)")
+                "every ordered node pair queried. timing: see c16_timing. repair: ICT-controlled systems with a microgrid whose main controller is under hardware repair for the whole run, one fault inside the microgrid (2/3) or in the feeder (1/3), compared state by state with the model's manual loops; a tripped breaker must not reclose before the manual sectioning time. non-trivial = distinct (nodes, lines, failed lines, number of communication islands)")
     cases = gen(rng, n, ex)
     try:
         from . import c16_timing
         cases += c16_timing.gen(rng, 12 if res.tier == "quick" else 200)
     except ImportError:
         res.notes.append("timing part not built yet")
-    run_cases(res, cases, handler)
+    cases += gen_repair(rng, 9 if res.tier == "quick" else 150)
+    from . import ctl
+    run_cases(res, cases, handler, lambda case, m, i: [ctl.strip_ok(x) for x in m] == i if case["kind"] == "repair" else m == i)
 
 
 def search(res):
@@ -124,6 +175,7 @@ def search(res):
         cases += c16_timing.gen(rng, 60)
     except ImportError:
         pass
+    cases += gen_repair(rng, 30)
     for case in cases:
         h = handler(case)
         for key, what in h["viols"]:
